@@ -221,3 +221,127 @@ Proof. exact lex_stream_token_facts. Qed.
 Print Assumptions c19_lex_stream_token_facts.
 
 End Lex.
+
+(* ---------------------------------------------------------------- Ninja parser part: termination, bounds, no silent drop, whole-manifest loading *)
+Module Parse.
+From LLB Require Import Base.Bytes Parse.NinjaLex Parse.NinjaLexProofs Parse.NinjaEval Parse.NinjaEvalProofs
+  Parse.NinjaParse Parse.NinjaParseProofs Parse.NinjaParseProofsEx.
+Local Open Scope N_scope.
+
+
+(* getNextNonCommentToken never runs out of fuel, from any parser state *)
+Theorem ninjaparse_next_total : forall p, exists p', next p = Ok p'.
+Proof. exact next_total. Qed.
+Print Assumptions ninjaparse_next_total.
+
+(* parse_total: for EVERY byte string the parser model terminates within its fuel ([parse_fuel data] =
+   S (S (length data)) rounds of the loop of Parser::parse; S (S (unread bytes)) rounds of every inner loop):
+   OutOfFuel is unreachable *)
+Theorem ninjaparse_parse_tokens_total : forall data, exists ds, parse_tokens data = Ok ds.
+Proof. exact parse_tokens_total. Qed.
+Print Assumptions ninjaparse_parse_tokens_total.
+
+Theorem ninjaparse_parse_total : forall data, exists ds, parse data = Ok ds.
+Proof. exact parse_total. Qed.
+Print Assumptions ninjaparse_parse_total.
+
+Theorem ninjaparse_skip_past_eol_total : forall p, exists p', skip_past_eol p = Ok p'.
+Proof. exact skip_past_eol_total. Qed.
+Print Assumptions ninjaparse_skip_past_eol_total.
+
+(* one parseDecl call: total, consumes input (strictly unless it stops at EndOfFile), and re-establishes the lexing
+   mode None that `assert(lexer.getMode() == Lexer::LexingMode::None)` demands at the head of the loop *)
+Theorem ninjaparse_parse_decl_total : forall p, p_mode p = MNone ->
+  exists ds p', parse_decl p = Ok (ds, p') /\ p_mode p' = MNone /\
+    (unread (p_lex p') <= unread (p_lex p))%nat /\
+    (cur_kind p' <> TkEndOfFile -> (unread (p_lex p') < unread (p_lex p))%nat).
+Proof. exact parse_decl_total. Qed.
+Print Assumptions ninjaparse_parse_decl_total.
+
+(* ================================ token bounds ================================ *)
+
+(* every Token handed to an action, and the `at` token of every error call, lies inside the buffer
+   ([in_buf data t] : tk_start t + tk_len t <= length data; [tdecl_P Q d] : every token of d satisfies Q) *)
+Theorem ninjaparse_parse_tokens_in_buffer : forall data ds,
+  parse_tokens data = Ok ds -> Forall (tdecl_P (in_buf data)) ds.
+Proof. exact parse_tokens_in_buffer. Qed.
+Print Assumptions ninjaparse_parse_tokens_in_buffer.
+
+(* parse_tokens_in_bounds: every token text handed to the actions is a slice of the input
+   ([is_slice data x] : exists a b, a <= b <= length data /\ x = slice data a b /\ length x = b - a) *)
+Theorem ninjaparse_parse_tokens_in_bounds : forall data ds d x,
+  parse data = Ok ds -> In d ds -> In x (decl_texts d) -> is_slice data x.
+Proof. exact parse_tokens_in_bounds. Qed.
+Print Assumptions ninjaparse_parse_tokens_in_bounds.
+
+(* ================================ no silent drop, recovery ================================ *)
+
+(* the recovery rule: skipPastEOL drops tokens (lexed in the current mode, comments included) up to the next Newline
+   or EndOfFile token, consumes that, and stops at the first token behind it that is not a comment *)
+Theorem ninjaparse_skip_past_eol_rule : forall p p', skip_past_eol p = Ok p' ->
+  exists t s, lex_to_eol (p_mode p) (p_tok p) (p_lex p) t s /\
+              lex_past_comments (p_mode p) s (p_tok p') (p_lex p') /\ p_mode p' = p_mode p.
+Proof. exact skip_past_eol_rule. Qed.
+Print Assumptions ninjaparse_skip_past_eol_rule.
+
+(* ... and the rule determines the state after recovery *)
+Theorem ninjaparse_skip_past_eol_exact : forall p t s t' s',
+  lex_to_eol (p_mode p) (p_tok p) (p_lex p) t s -> lex_past_comments (p_mode p) s t' s' ->
+  skip_past_eol p = Ok (mkP t' s' (p_mode p)).
+Proof. exact skip_past_eol_exact. Qed.
+Print Assumptions ninjaparse_skip_past_eol_exact.
+
+(* parse_error_or_decl: a parseDecl call on a blank line only consumes the Newline; on any other token it makes
+   exactly one top-level call, a declaration or an error; after an error it has recovered from the state at which the
+   error was raised (current token = the error's token, mode None) by skipPastEOL - repeated while the next line is
+   indented when a build / pool / rule specifier failed *)
+Theorem ninjaparse_parse_error_or_decl : forall p ds p', p_mode p = MNone -> parse_decl p = Ok (ds, p') ->
+  (cur_kind p = TkNewline /\ ds = [] /\ next p = Ok p') \/
+  (cur_kind p <> TkNewline /\ exists d, ds = [d] /\
+     forall c a, d = TDPErr c a ->
+       exists pe, raised_at pe a /\
+         if is_block_kw (cur_kind p) then skip_lines pe p' else skip_past_eol pe = Ok p').
+Proof. exact parse_error_or_decl. Qed.
+Print Assumptions ninjaparse_parse_error_or_decl.
+
+(* a failing binding (top-level or indented) reports one error and recovers by skipPastEOL from the offending token *)
+Theorem ninjaparse_binding_error_recovery : forall p c a p', parse_binding_internal p = Ok (BRErr c a, p') ->
+  exists pe, raised_at pe a /\ skip_past_eol pe = Ok p'.
+Proof. exact binding_error_recovery. Qed.
+Print Assumptions ninjaparse_binding_error_recovery.
+
+(* every indented line of a block: blank -> skipped; anything else -> exactly one item (binding or error) *)
+Theorem ninjaparse_block_line_item : forall f p l p', block_loop (S f) p = Ok (l, p') -> cur_kind p = TkIndentation ->
+  exists p1, next (set_mode MIdentifierSpecific p) = Ok p1 /\
+    ((cur_kind p1 = TkNewline /\ exists p2, next (set_mode MNone p1) = Ok p2 /\ block_loop f p2 = Ok (l, p')) \/
+     (cur_kind p1 <> TkNewline /\ exists r p2 l', parse_binding_internal p1 = Ok (r, p2) /\
+        l = tbitem_of_bres r :: l' /\ block_loop f p2 = Ok (l', p'))).
+Proof. exact block_line_item. Qed.
+Print Assumptions ninjaparse_block_line_item.
+
+(* ================================ parser + loader ================================ *)
+
+(* parse_load_total: bytes -> parser model -> loader model (NinjaEval.load) never runs out of fuel, for any byte
+   strings as files, with the loader's include depth (64) and recursive-include guards *)
+Theorem ninjaparse_parse_load_total : forall fuel wd raw main, (max_include_depth <= fuel)%nat ->
+  exists m, parse_load fuel wd raw main = Ok m /\ has_out_of_fuel (mf_errors m) = false.
+Proof. exact parse_load_total. Qed.
+Print Assumptions ninjaparse_parse_load_total.
+
+(* ================================ the model on the repository's parser tests ================================ *)
+
+(* the five manifests of /repo/tests/Ninja/Parser (bytes and expected action lists in Parse/NinjaParseProofsEx.v) parse,
+   by computation of the lexer + parser models, to the action lists the real parser makes on them *)
+Theorem ninjaparse_repo_tests_parse :
+  parse basic_bytes = Ok basic_ast /\
+  parse identifier_names_bytes = Ok identifier_names_ast /\
+  parse identifier_specific_parsing_bytes = Ok identifier_specific_parsing_ast /\
+  parse path_string_parsing_bytes = Ok path_string_parsing_ast /\
+  parse variable_string_parsing_bytes = Ok variable_string_parsing_ast.
+Proof.
+  exact (conj basic_parses (conj identifier_names_parses (conj identifier_specific_parsing_parses
+        (conj path_string_parsing_parses variable_string_parsing_parses)))).
+Qed.
+Print Assumptions ninjaparse_repo_tests_parse.
+
+End Parse.
